@@ -86,7 +86,9 @@ def _judge(ctx: Ctx, c, impl, replies):
         ctx.violation("the code raised on an addressable placeholder", c, st, key="raises-in-domain")
     if k == "lines":
         mst, mlines = U.model_lines(replies[0])
-        if st != mst:
+        if st == mst == "ok" and out != mlines and _matches_unrepaired(ctx, c, out):
+            pass
+        elif st != mst:
             ctx.mismatch("to_lines status", c, st, mst)
         elif st == "ok" and out != mlines:
             bad = next((i for i in range(max(len(out), len(mlines))) if i >= len(out) or i >= len(mlines) or out[i] != mlines[i]), None)
@@ -108,7 +110,9 @@ def _judge(ctx: Ctx, c, impl, replies):
     style = c["style"]
     mst, mdata = U.model_bytes(replies[0])
     ctx.count("style:" + style[0] + ":" + ":".join(str(x) for x in style[1:] if not isinstance(x, list))[:20])
-    if st != mst:
+    if st == mst == "ok" and out != mdata and _matches_unrepaired(ctx, c, out):
+        pass
+    elif st != mst:
         ctx.mismatch("to_stream status", c, st, mst)
     elif st == "ok" and out != mdata:
         ctx.mismatch("to_stream bytes", c, out.hex()[:400], mdata.hex()[:400])
@@ -125,6 +129,23 @@ def _judge(ctx: Ctx, c, impl, replies):
             ctx.violation("cursor does not end at the expected position", c, {"cursor": sp["cur"], "expected": cur}, key="final-cursor")
         elif sp["scrolled"] != s:
             ctx.violation("screen scrolled by an unexpected amount", c, {"scrolled": sp["scrolled"], "expected": s}, key="scroll-amount")
+
+
+def _matches_unrepaired(ctx: Ctx, c, out) -> bool:
+    """C07 does not depend on the trailing reset of blank lines (rows >= 297; defect D9 of C13): the correspondence
+    accepts the code with or without that repair.  The model of the code as it is answers `lines9` / `stream9`."""
+    if c["ph"][5] <= U.TABLE:
+        return False
+    p, m, f = c["ph"], c["mode"], c.get("fmt", {"t": "n"})
+    d = ctx.driver("drv_ph")
+    if c["k"] == "lines":
+        st, alt = U.model_lines(d.ask(U.req_lines(p, m, f, c.get("noesc", 0)).replace("lines ", "lines9 ", 1)))
+    else:
+        st, alt = U.model_bytes(d.ask(U.req_stream(c["style"], p, m, f).replace("stream ", "stream9 ", 1)))
+    if st == "ok" and alt == out:
+        ctx.count("K:matches-model-without-D9-repair")
+        return True
+    return False
 
 
 def check_case(ctx: Ctx, c: dict):
@@ -217,6 +238,11 @@ def cases(ctx: Ctx):
         sc, ec = rng.choice(COLS)
         sr, er = rng.choice(ROWS)
         yield dict(k="lines", ph=[rng.choice(ids), rng.choice(pids), sc, sr, ec, er], mode=rng.choice(modes), noesc=1)
+    for _ in range(100 if quick else 1000):
+        sc, ec = rng.choice(COLS_SMALL)
+        sr, er = rng.choice(ROWS)
+        yield dict(k="stream", style=["lfall", 1], ph=[rng.choice(ids), rng.choice(pids), sc, sr, ec, er], mode=rng.choice(modes),
+                   W=10, H=4, x0=0, y0=0)
     bad = [[0, 0, 0, 0, 1, 1], [-1, 0, 0, 0, 1, 1], [2**32, 0, 0, 0, 1, 1], [2**32 - 1, 0, 0, 0, 1, 1], [1, -1, 0, 0, 1, 1],
            [1, 2**24, 0, 0, 1, 1], [1, 2**24 - 1, 0, 0, 1, 1], [1, 0, -1, 0, 1, 1], [1, 0, 0, -1, 1, 1], [1, 0, 1, 0, 1, 1],
            [1, 0, 2, 0, 1, 1], [1, 0, 0, 1, 1, 1], [1, 0, 0, 2, 1, 1], [1, 0, 297, 0, 298, 1], [1, 0, 298, 296, 300, 298],
@@ -264,7 +290,18 @@ def run(ctx: Ctx):
             ctx.case(c)
             ctx.count("corpus")
     batch = []
-    for c in cases(ctx):
+    # interleave the to_lines cases and the stream cases so that a run cut short by the time budget covers both
+    allc = list(cases(ctx))
+    a = [c for c in allc if c["k"] == "lines"]
+    b = [c for c in allc if c["k"] != "lines"]
+    merged = []
+    ia = ib = 0
+    while ia < len(a) or ib < len(b):
+        if ia < len(a) and (ib >= len(b) or ia * len(b) <= ib * len(a)):
+            merged.append(a[ia]); ia += 1
+        else:
+            merged.append(b[ib]); ib += 1
+    for c in merged:
         if ctx.time_left() < 0:
             ctx.count("skipped-over-budget")
             continue
